@@ -12,6 +12,7 @@ import (
 	"math"
 	"math/big"
 	"math/rand/v2"
+	"slices"
 
 	"github.com/nspcc-dev/neo-go/pkg/core/mempoolevent"
 	"github.com/nspcc-dev/neo-go/pkg/core/native/noderoles"
@@ -484,7 +485,15 @@ func initDesignateNotaryRoleAsLeaderTick(ctx context.Context, prm enableNotaryPr
 				make([]byte, extraLen)...)
 			buf := tx.Scripts[1].InvocationScript[initialLen:]
 
-			for _, sig := range mCommitteeIndexToSignature {
+			// signatures must follow the order of the keys in the multi-signature account
+			sortedIndices := make([]int, 0, len(mCommitteeIndexToSignature))
+			for i := range mCommitteeIndexToSignature {
+				sortedIndices = append(sortedIndices, i)
+			}
+			slices.Sort(sortedIndices)
+
+			for _, i := range sortedIndices {
+				sig := mCommitteeIndexToSignature[i]
 				buf[0] = byte(opcode.PUSHDATA1)
 				buf[1] = byte(len(sig))
 				buf = buf[2:]
